@@ -3,9 +3,10 @@ Model of `markup5ever/util/buffer_queue.rs` (BufferQueue) and `smallcharset.rs`.
 
 A queue is the list of its buffers, each buffer the list of its characters.
 Every `expect`/index panic of the Rust is an explicit `Except` branch.
-`eat` is modelled at character level; the Rust compares bytes, which coincides for
-ASCII patterns (no byte of a multi-byte UTF-8 sequence is < 0x80) — that bridge is
-validated by the correspondence check (engine `bq`), not proved.
+`eat` is modelled at character level; the Rust compares bytes.  The bridge is proved in
+`Props/C13Bytes.lean` (`C13_eat_bytes_eq_chars_all`: the literal byte-level loop over the UTF-8
+encoding equals this model for every pattern under `==` / `eq_ignore_ascii_case`) and also
+exercised by the correspondence check (engine `bq`).
 -/
 namespace H5V.Model.BQ
 
